@@ -1,4 +1,5 @@
 import Vorbis.Proofs.Dec
+import Vorbis.Proofs.Enc
 /-!
 # C04 — encode then decode preserves the exact sample count and starts at zero
 
@@ -7,41 +8,12 @@ Both are replayed call by call against the real encoder and decoder (stream `c04
 
 `C04_decode_total` is the decoder half, for *every* packet sequence of the shape the encoder
 produces (`Coherent`) and *every* way of hiding granule positions that Ogg paging allows.
-The encoder half is `C04_enc_*` (single-step facts); the statement "every drained encoder run is
-`Coherent`" is checked on every trace by the correspondence (`coherent` field of the check) and is
-recorded in DESIGN.md as the part of `C04_main` that is not yet a theorem (`C04_main_partial`).
+`C04_encode_coherent` is the encoder half: every run (any partition, any answers of the envelope
+search) that signals end of input once and is drained hands out a `Coherent` sequence.
+`C04_main` composes the two.
 -/
 namespace Vorbis.Props.C04
 open Vorbis.Block
-
-/-- The shape of an encoder packet sequence for `N` submitted samples, as seen by a decoder:
-    `first` — no packet seen yet; `lW` — window flag of the previous packet; `c` — centre position of
-    the previous block (= samples the stream has advanced); `seq` — expected sequence number.
-    Each entry carries a visibility flag: whether its granule position survives Ogg paging. -/
-def Coherent (z : Sizes) (N : Int) : Bool → Bool → Int → Int → List (Pkt × Bool) → Prop
-  | _, _, _, _, [] => False
-  | first, lW, c, seq, [(p, vis)] =>
-      let c' := if first then 0 else c + adv z lW p.W
-      p.eos = true ∧ vis = true ∧ p.seq = seq ∧ p.gp = N ∧ c ≤ N ∧ N ≤ c'
-  | first, lW, c, seq, (p, _) :: q :: rest =>
-      let c' := if first then 0 else c + adv z lW p.W
-      p.eos = false ∧ p.seq = seq ∧ p.gp = c' ∧ Coherent z N false p.W c' (seq + 1) (q :: rest)
-
-/-- `Coherent` is decidable, so the correspondence can evaluate this very predicate on every real
-    encoder trace -/
-def Coherent.dec (z : Sizes) (N : Int) : ∀ (first lW : Bool) (c seq : Int) (l : List (Pkt × Bool)),
-    Decidable (Coherent z N first lW c seq l)
-  | _, _, _, _, [] => isFalse (by simp [Coherent])
-  | first, lW, c, seq, [(p, vis)] => by unfold Coherent; exact inferInstance
-  | first, lW, c, seq, (p, v) :: q :: rest => by
-      unfold Coherent
-      have := Coherent.dec z N false p.W (if first then 0 else c + adv z lW p.W) (seq + 1) (q :: rest)
-      exact inferInstance
-
-instance (z : Sizes) (N : Int) (first lW : Bool) (c seq : Int) (l : List (Pkt × Bool)) :
-    Decidable (Coherent z N first lW c seq l) := Coherent.dec z N first lW c seq l
-
-def toBlks (l : List (Pkt × Bool)) : List Blk := l.map (fun pv => pv.1.toBlk pv.2)
 
 theorem sum_drain_cons (z : Sizes) (hs : Nat) (d : Dec) (b : Blk) (bs : List Blk) :
     sum (Dec.drainAll z hs d (b :: bs))
@@ -112,6 +84,108 @@ theorem C04_decode_total (z : Sizes) (h0 : 0 ≤ z.bs0) (h1 : 0 ≤ z.bs1) (N : 
       have hr := decode_rest z h0 h1 N (q :: rest') _ p.W 0 (seq0 + 1) hst hrest
       rw [toBlks_cons, sum_drain_cons, sf.1, hr]
       omega
+
+/-- **C04_encode_coherent** — for all block sizes `4 ≤ bs0 ≤ bs1`, every sequence `pre` of
+`vorbis_analysis_buffer` / `vorbis_analysis_wrote(n>0)` / `vorbis_analysis_blockout` calls in any
+order and with any sizes (over-submissions are refused and do not count), every answer sequence of
+the envelope search, followed by one end-of-input call and any draining calls `post`: if the encoder
+reports itself finished, the packets handed out are `mids ++ [last]` and form a `Coherent` sequence
+for `N` = the number of samples accepted — in particular `last` carries end-of-stream and granule
+position `N`, and it is the only packet with the end-of-stream flag. -/
+theorem C04_encode_coherent (z : Sizes) (s : SzOk z) (pre post : List EncOp) (n0 : Int) (hn0 : n0 ≤ 0)
+    (hpre : ∀ op ∈ pre, DataOp op) (hpost : ∀ op ∈ post, DrainOp op)
+    (hdone : (Enc.run z (Enc.init z) (pre ++ [EncOp.wrote n0] ++ post)).1.eof = -1) (vis : Pkt → Bool) :
+    ∃ mids last,
+      (Enc.run z (Enc.init z) (pre ++ [EncOp.wrote n0] ++ post)).2 = mids ++ [last] ∧
+      Coherent z (accepted z (Enc.init z) pre) true false 0 3 (mids.map (fun q => (q, vis q)) ++ [(last, true)]) ∧
+      0 ≤ accepted z (Enc.init z) pre := by
+  -- phase 1: data
+  have h1 := run_data z s pre (Enc.init z) [] 0 (init_inv z) rfl hpre
+  simp only [List.nil_append, Int.zero_add] at h1
+  obtain ⟨hinv1, heof1⟩ := h1
+  -- the end-of-input call
+  have h2 := wrote_eof_inv z s _ _ _ n0 hinv1 hn0 heof1
+  obtain ⟨hinv2, hne2, _⟩ := h2
+  -- phase 2: drain
+  have h3 := run_drain z s post _ _ _ hinv2 hne2 hpost
+  have hrun : Enc.run z (Enc.init z) (pre ++ [EncOp.wrote n0] ++ post)
+      = ((Enc.run z ((Enc.run z (Enc.init z) pre).1.wrote z n0).1 post).1,
+         (Enc.run z (Enc.init z) pre).2 ++ (Enc.run z ((Enc.run z (Enc.init z) pre).1.wrote z n0).1 post).2) := by
+    rw [List.append_assoc, run_append]
+    simp [Enc.run, Enc.step]
+  rw [hrun] at hdone ⊢
+  simp only at hdone ⊢
+  rcases h3 with ⟨hi, hn⟩ | ⟨_, mids, last, hout, hm, hf⟩
+  · exact absurd hdone hi.live
+  · refine ⟨(Enc.run z (Enc.init z) pre).2 ++ mids, last, by rw [hout, List.append_assoc], ?_, hinv1.nw0⟩
+    have := coherent_of_mid_final z (accepted z (Enc.init z) pre) vis ((Enc.run z (Enc.init z) pre).2 ++ mids)
+      View.init last hm hf.eos hf.seq hf.gp hf.lo hf.hi
+      (fun hfirst => ⟨hf.firstZero hfirst, by
+        -- a view that is still "first" has seen no packet: its centre is the initial 0
+        generalize (Enc.run z (Enc.init z) pre).2 ++ mids = l at hfirst ⊢
+        cases l with
+        | nil => rfl
+        | cons a rest =>
+          exfalso
+          have : ∀ (l : List Pkt) (v : View), v.first = false → (View.run z v l).first = false := by
+            intro l; induction l with
+            | nil => intro v hv; exact hv
+            | cons b t ih => intro v _; exact ih _ rfl
+          have := this rest (View.init.step z a) rfl
+          simp [View.run] at hfirst
+          rw [this] at hfirst
+          exact Bool.noConfusion hfirst⟩)
+    simpa [View.init] using this
+
+/-- **C04_main** — encode then decode: for every such encoder run, every page layout (visibility of
+intermediate granule positions), the decoder delivers exactly the `N` samples that were accepted,
+nothing comes out of the first packet (the stream starts at position 0), the last packet carries
+granule position `N` and the only end-of-stream flag. -/
+theorem C04_main (z : Sizes) (s : SzOk z) (pre post : List EncOp) (n0 : Int) (hn0 : n0 ≤ 0)
+    (hpre : ∀ op ∈ pre, DataOp op) (hpost : ∀ op ∈ post, DrainOp op)
+    (hdone : (Enc.run z (Enc.init z) (pre ++ [EncOp.wrote n0] ++ post)).1.eof = -1) (vis : Pkt → Bool) :
+    ∃ mids last,
+      (Enc.run z (Enc.init z) (pre ++ [EncOp.wrote n0] ++ post)).2 = mids ++ [last] ∧
+      last.eos = true ∧ last.gp = accepted z (Enc.init z) pre ∧ (∀ p ∈ mids, p.eos = false) ∧
+      sum (Dec.drainAll z 0 (Dec.restart z 0) (toBlks (mids.map (fun q => (q, vis q)) ++ [(last, true)])))
+        = accepted z (Enc.init z) pre := by
+  obtain ⟨mids, last, hout, hcoh, hN⟩ := C04_encode_coherent z s pre post n0 hn0 hpre hpost hdone vis
+  have hz0 : 0 ≤ z.bs0 := by have := s.lo; omega
+  have hz1 : 0 ≤ z.bs1 := by have := s.lo; have := s.le; omega
+  refine ⟨mids, last, hout, ?_, ?_, ?_, C04_decode_total z hz0 hz1 _ 3 (by decide) _ hcoh⟩
+  all_goals (
+    -- read the facts off `Coherent`
+    have key : ∀ (l : List Pkt) (f lW : Bool) (c sq : Int),
+        Coherent z (accepted z (Enc.init z) pre) f lW c sq (l.map (fun q => (q, vis q)) ++ [(last, true)]) →
+        last.eos = true ∧ last.gp = accepted z (Enc.init z) pre ∧ ∀ p ∈ l, p.eos = false := by
+      intro l
+      induction l with
+      | nil => intro f lW c sq h; simp only [List.map_nil, List.nil_append, Coherent] at h; exact ⟨h.1, h.2.2.2.1, by simp⟩
+      | cons a rest ih =>
+        intro f lW c sq h
+        cases hrest : (rest.map (fun q => (q, vis q)) ++ [(last, true)]) with
+        | nil => simp at hrest
+        | cons q tl =>
+          simp only [List.map_cons, List.cons_append, hrest, Coherent] at h
+          have := ih _ _ _ _ (by rw [hrest]; exact h.2.2.2)
+          exact ⟨this.1, this.2.1, by intro p hp; simp at hp; rcases hp with rfl | hp; exact h.1; exact this.2.2 p hp⟩
+    have k := key mids _ _ _ _ hcoh)
+  · exact k.1
+  · exact k.2.1
+  · exact k.2.2
+
+/-- non-vacuity of `C04_main`: five samples through a 64/64 encoder, drained by two blockout calls -/
+example : (Enc.run { bs0 := 64, bs1 := 64 } (Enc.init { bs0 := 64, bs1 := 64 })
+    ([EncOp.buffer 5, EncOp.wrote 5] ++ [EncOp.wrote 0] ++ [EncOp.blockout (-1), EncOp.blockout 0])).1.eof = -1 ∧
+    accepted { bs0 := 64, bs1 := 64 } (Enc.init { bs0 := 64, bs1 := 64 }) [EncOp.buffer 5, EncOp.wrote 5] = 5 := by
+  decide
+
+/-- **C04_drain_progress** — after end of input has been signalled, every `vorbis_analysis_blockout`
+call hands out a block (whatever the envelope search answers) until the end-of-stream block: the
+3·bs1 samples of padding always suffice, so draining cannot stall. -/
+theorem C04_drain_progress (z : Sizes) (s : SzOk z) (e : Enc) (pk : List Pkt) (Nw : Int)
+    (h : EInv z e pk Nw) (he : e.eof ≠ 0) (hpre : e.pre = true) (bp : Int) :
+    (e.blockout z bp).2 ≠ none := blockout_progress z s e pk Nw h he hpre bp
 
 /-- **C04_first_zero** — the first packet never delivers samples: output starts at position 0. -/
 theorem C04_first_zero (z : Sizes) (h1 : 0 ≤ z.bs1) (b : Blk) (hpcm : b.pcm = true)
